@@ -26,7 +26,7 @@ from props import exprlib as el
 ID = 'C01'
 PROFILES = ['dev', 'release']
 REPLAY_PROFILES = ['dev', 'release']
-TIME_LIMIT = {'quick': 420, 'thorough': 3000}
+TIME_LIMIT = {'quick': 900, 'thorough': 3000}
 BUDGET = 120
 FIRST_BUDGET = 60
 
